@@ -36,25 +36,24 @@ Proof. exact span_table_vs_vm. Qed.
 Print Assumptions C10_span_table_vs_vm.
 
 (* ---- the compiler model ----
-   Full statement (NOT proved; every conjunct below that is missing from the partial theorem is
-   checked on each real compiler output by wf_check instead):
+   Full statement: PROVED below as C10_compile_wellformed (side conditions on the flattened program) and
+   C10_compile_wellformed_module (side conditions on the module tree):
 
-     Theorem C10_compile_wellformed :
-       forall M o B, module_in_range M -> compile M o = COk B ->
-                     N.of_nat (length (p_bytecode B)) < 2^31 -> wellformed_gen false B.
+       forall M o B, compile M o = COk B -> module_in_range M = true ->
+                     N.of_nat (length (p_bytecode B)) < 2^31 -> N.of_nat (length (p_data B)) < 2^32 ->
+                     wellformed_gen false B /\ trace_complete B
 
-   where module_in_range says that integer / float literals fit their machine types and all strings
-   of M are valid UTF-8.  It cannot hold with [wellformed] (= wellformed_gen true) because of A-23
-   (C10_A23_witness), nor with trace completeness because of A-24 (C10_A24_witness); the conjunct
-   "ids and names are mutually inverse" additionally needs Handle::from_u32 to be injective on the
-   ids in use.
+   where module_in_range says that integer / float literals fit their machine types and the strings copied
+   into the data section are valid UTF-8.  With the MAX_STR_LEN window that read_str had before the repair
+   of A-23 it cannot hold (C10_A23_legacy_window_refuted); at /repo HEAD the reader has no window and
+   wellformed = wellformed_gen false (C10_compile_wellformed_head).
 
-   Proved: the emission invariants, for ALL modules and card kinds.  In every program the model
-   returns, the bytecode is the encoding of an instruction list that ends with Exit, every jump
-   operand, every function / closure / card label and every trace key is the first byte of an
-   instruction of that program, and every instruction has a trace entry; the decoder returns
-   exactly that list when the operands are in range.  (Not covered: operand ranges, string operands, local/upvalue/global index ranges, the
-   variables tables.) *)
+   First, the emission invariants alone, for ALL modules and card kinds, without any condition on the
+   literals.  In every program the model returns, the bytecode is the encoding of an instruction list
+   that ends with Exit, every jump operand, every function / closure / card label and every trace key
+   is the first byte of an instruction of that program, and every instruction has a trace entry; the
+   decoder returns exactly that list when the operands are in range.  (Operand ranges, string operands,
+   local / upvalue / global index ranges and the variables tables are covered by the full theorem.) *)
 From Cao Require Import CompilerWf.
 
 Theorem C10_compile_wellformed_partial :
@@ -119,3 +118,169 @@ Proof.
   split; [exact He|]. split; [exact Hj|]. split; [exact Hlab|]. split; [exact Htr | exact Hcomp].
 Qed.
 Print Assumptions C10_compile_wellformed_partial_strong.
+
+(* ---- the full statement ----
+   Every program the compiler model returns is well-formed for a reader without MAX_STR_LEN window
+   (the reader of /repo HEAD: CompilerGen.read_str_windowed = false, so wellformed_gen false = wellformed),
+   under explicit, executable side conditions:
+     program_in_range M o        integer / float literals fit i64 / 64 bits, function handles are 32-bit
+                                 (true for every module built from the Rust types);
+     program_utf8 M o            the strings the compiler copies into the data section (string literals,
+                                 native function names, names of ReadVar / SetVar cards - their
+                                 `.`-separated suffixes become string literals) are valid UTF-8
+                                 (true for every module built from Rust `String`s; the proof shows that
+                                 cutting at '.' keeps the pieces valid);
+     bytecode < 2^31 bytes       jump operands are `bytecode.len() as i32`;
+     data < 2^32 bytes           string operands are `data.len() as u32`.
+   No hypothesis on hash collisions is needed:
+   - the number of globals is bounded by the code size (C10_few_globals: every new id is followed by a
+     5-byte instruction), so the u32 counter `next_var` does not wrap;
+   - Handle::from_u32 is injective on 0 .. 2^32 - 2 (C10_from_u32_injective), so the ids in use have
+     pairwise distinct keys in `variables.names`;
+   - two variable NAMES with the same Handle::from_str hash share one id and the name of the first; the
+     tables stay mutually inverse in the sense of [wellformed] (the second name is not recorded: that is
+     a property of the language, not of the bytecode's validity).
+   New with respect to C10_compile_wellformed_partial_strong, all proved as invariants of the
+   compilation state threaded through process_card (CompilerFull.Inv3, next to CompilerOk.Inv2):
+   (1) every string operand (StringLiteral, NativeFunctionPointer, property shorthands) is the offset of a
+       complete length-prefixed entry of the data section with valid UTF-8 payload, and read_str returns it;
+   (2) every local / upvalue index, both halves of RegisterUpvalue, CloseUpvalue's operand and the five
+       hidden-local operands of BeginForEach / ForEach are in range (index < 255, is_local <= 1);
+   (3) every ReadGlobalVar / SetGlobalVar operand is < the number of globals, ids are exactly 0..n-1 without
+       repetition, `variables.ids` and `variables.names` are mutually inverse.
+   Not proved (not part of [wellformed]; see the comment at Wellformed.index_ok): that a local index is
+   below the number of locals its own function has declared at that point, and that RegisterUpvalue's index
+   refers to an existing local / upvalue of the enclosing function - the bytecode does not declare the
+   number of locals of a function, so this is not a property of the output alone. *)
+From Cao Require Import WellformedSide CompilerFull HandleInj.
+Theorem C10_compile_wellformed :
+  forall (M : module) (o : options) (B : compiled),
+    compile M o = COk B ->
+    program_in_range M o = true ->
+    program_utf8 M o = true ->
+    (N.of_nat (length (p_bytecode B)) < 2147483648)%N ->
+    (N.of_nat (length (p_data B)) < 4294967296)%N ->
+    wellformed_gen false B.
+Proof. exact compile_wellformed. Qed.
+Print Assumptions C10_compile_wellformed.
+
+(* the statement of the property record, for the reader of /repo HEAD (CompilerGen.read_str_windowed,
+   regenerated from the source on every run, is false; if the window came back this proof would fail) *)
+Theorem C10_compile_wellformed_head :
+  forall (M : module) (o : options) (B : compiled),
+    compile M o = COk B ->
+    program_in_range M o = true ->
+    program_utf8 M o = true ->
+    (N.of_nat (length (p_bytecode B)) < 2147483648)%N ->
+    (N.of_nat (length (p_data B)) < 4294967296)%N ->
+    wellformed B.
+Proof. exact compile_wellformed. Qed.
+Print Assumptions C10_compile_wellformed_head.
+
+(* together with: every instruction of the returned program has a source-trace entry *)
+Theorem C10_compile_trace_complete :
+  forall (M : module) (o : options) (B : compiled),
+    compile M o = COk B ->
+    program_in_range M o = true ->
+    (N.of_nat (length (p_bytecode B)) < 2147483648)%N ->
+    trace_complete B.
+Proof. exact compile_trace_complete. Qed.
+Print Assumptions C10_compile_trace_complete.
+
+Theorem C10_from_u32_injective :
+  forall i j : N, (i < 4294967295)%N -> (j < 4294967295)%N -> handle_from_u32 i = handle_from_u32 j -> i = j.
+Proof. exact handle_from_u32_inj. Qed.
+Print Assumptions C10_from_u32_injective.
+
+Theorem C10_few_globals :
+  forall (M : module) (o : options) (B : compiled),
+    compile M o = COk B -> program_in_range M o = true -> program_utf8 M o = true ->
+    (N.of_nat (length (p_bytecode B)) < 2147483648)%N ->
+    (5 * N.of_nat (length (p_ids B)) <= N.of_nat (length (p_bytecode B)))%N.
+Proof. exact compile_few_globals. Qed.
+Print Assumptions C10_few_globals.
+
+(* a concrete instance (global, local captured by a closure, property shorthands, for-each, native
+   function pointer, a non-ASCII string literal): the side conditions evaluate to true and the
+   executable checker agrees with the theorem *)
+Example C10_compile_wellformed_example :
+  exists B, compile full_example_module default_options = COk B /\
+            program_in_range full_example_module default_options = true /\
+            program_utf8 full_example_module default_options = true /\
+            var_handles_collision_free (length (p_ids B)) = true /\
+            wf_check_gen false B = true /\ wellformed_gen false B.
+Proof. exact full_example. Qed.
+Print Assumptions C10_compile_wellformed_example.
+
+(* the same theorem with the side conditions stated on the module tree itself:
+   [module_in_range M] = in every card of every function of M and of its submodules, integer / float
+   literals fit i64 / 64 bits and the strings copied into the data section (string literals, native
+   function names, ReadVar / SetVar names) are valid UTF-8.  The standard library, which into_ir_stream
+   adds, satisfies it (evaluated); into_ir_stream only rearranges functions and gives them 32-bit handles. *)
+From Cao Require Import CompilerFlatten.
+Theorem C10_compile_wellformed_module :
+  forall (M : module) (o : options) (B : compiled),
+    compile M o = COk B ->
+    module_in_range M = true ->
+    (N.of_nat (length (p_bytecode B)) < 2147483648)%N ->
+    (N.of_nat (length (p_data B)) < 4294967296)%N ->
+    wellformed_gen false B /\ trace_complete B.
+Proof. exact compile_wellformed_module. Qed.
+Print Assumptions C10_compile_wellformed_module.
+
+Theorem C10_module_in_range_program :
+  forall (M : module) (o : options),
+    module_in_range M = true -> program_in_range M o = true /\ program_utf8 M o = true.
+Proof. exact module_in_range_program. Qed.
+Print Assumptions C10_module_in_range_program.
+
+(* observation O-C10-1 (not a violation of C10; confirmed on the real crate by `cao-verif-harness
+   c10-witness`: after `brljcd := 1; uqabx := 2` both names read 2): two global variable names with the
+   same 32-bit Handle::from_str hash are one variable; the program is well-formed all the same *)
+Example C10_name_collision_observation :
+  handle_of_bytes [98; 114; 108; 106; 99; 100]%N = handle_of_bytes [117; 113; 97; 98; 120]%N /\
+  exists B, compile name_collision_module default_options = COk B /\
+            length (p_ids B) = 1%nat /\ map snd (p_names B) = [[98; 114; 108; 106; 99; 100]%N] /\
+            wf_check B = true.
+Proof. exact name_collision_observation. Qed.
+Print Assumptions C10_name_collision_observation.
+
+(* ---- scoping of index operands where the compiler produces them (CompilerScope.v) ----
+   The bytecode does not declare the number of locals of a function, so "a local index refers to an
+   existing local of its function at that point" is not a property of the output; these theorems are about
+   the operations of the model that produce the index operands.  (Not proved: the same for every
+   emission inside process_card - the hidden locals of Repeat / ForEach / Array are used after their
+   children were compiled; that needs an instrumented copy of process_card.) *)
+From Cao Require Import CompilerScope.
+
+(* the slot returned by add_local is the one just created: index = number of locals before, < 255 *)
+Theorem C10_add_local_slot :
+  forall (x : str) (s : cstate) (i : N) (s' : cstate),
+    cs_locals s <> [] -> add_local x s = ROk i s' ->
+    i = nlocals s /\ nlocals s' = (nlocals s + 1)%N /\ (i < 255)%N.
+Proof. exact add_local_slot. Qed.
+Print Assumptions C10_add_local_slot.
+
+(* resolve_var returns indices inside the locals / upvalues of the function being compiled, and keeps
+   the upvalue lists linked: an entry (is_local = true, index) of a function refers to an existing local
+   of the enclosing function, an entry (false, index) to an existing upvalue of the enclosing function
+   ([frames_ok]; these entries are the operand pairs of RegisterUpvalue) *)
+Theorem C10_resolve_var_in_scope :
+  forall (x : str) (s : cstate) (v : variable) (s' : cstate),
+    frames_ok (cs_locals s) (cs_upvalues s) ->
+    resolve_var x s = ROk v s' ->
+    frames_ok (cs_locals s') (cs_upvalues s') /\
+    match v with
+    | VLocal i => (i < nlocals s')%N /\ nlocals s' = nlocals s
+    | VUpvalue k => (k < nupvalues s')%N /\ nlocals s' = nlocals s
+    | VGlobal => nlocals s' = nlocals s
+    end.
+Proof. exact resolve_var_in_scope. Qed.
+Print Assumptions C10_resolve_var_in_scope.
+
+(* the operand of a CloseUpvalue emitted at scope end is the slot of a local that goes out of scope *)
+Theorem C10_close_upvalue_slot :
+  forall (rls : list local) (d : Z),
+    Forall (close_slot (length (fst (pop_locals rls d))) (length rls)) (snd (pop_locals rls d)).
+Proof. exact pop_locals_close_slot. Qed.
+Print Assumptions C10_close_upvalue_slot.
